@@ -11,7 +11,9 @@ import (
 	"math"
 	"math/rand"
 	"os"
+	"syscall"
 	"testing"
+	"time"
 )
 
 // b2Short renders a value for a failure line, shortened (deeply nested values are huge).
@@ -35,6 +37,16 @@ func b2ShortErr(err error) string {
 }
 
 func b2Thorough() bool { return os.Getenv("VERIF_TIER") == "thorough" }
+
+// b2CPU is the CPU time (user + system) this process has used so far.  Time bounds in the
+// harnesses are stated in CPU time, so that a loaded machine does not raise false alarms.
+func b2CPU() time.Duration {
+	var ru syscall.Rusage
+	if err := syscall.Getrusage(syscall.RUSAGE_SELF, &ru); err != nil {
+		return 0
+	}
+	return time.Duration(ru.Utime.Nano() + ru.Stime.Nano())
+}
 
 var b2Alphabet = []byte{0x00, '\n', '\r', ' ', '#', '(', ')', '/', '\\', '0', 'A', '<', '>', '[', '%', 0x7f, 0x80, 0xff}
 
